@@ -1,7 +1,11 @@
 // Package twin (second of two packages with this name).
 package twin
 
-type Rec struct{ N int64 }
+type Rec struct {
+	Label string
+	N     int64
+	Count int64
+}
 
 func (r Rec) Name() string { return "two-name" }
 func (r Rec) Zed() string  { return "two-zed" }
